@@ -59,6 +59,8 @@ class Session:
         import copy as _copy
         self.input_copies = {i: _copy.deepcopy(a) for i, a in self.input_arrays.items() if isinstance(i, int)}
         self.wl = build_worklist(self.rt, world, scratch=scratch, device=self.device)
+        self.injected_any = False  # an exception has been injected into some operation of this run
+        self.unobservable = None  # the exception with which observing a labware failed inside log_event
         self.buffers = {}  # selection objects the script reuses from call to call (ops with "wbuf")
         self.others = []  # further worklist objects the script creates and keeps alive (op "other_worklist")
         self.events = []
@@ -110,6 +112,8 @@ class Session:
             out.injected = inj.fired
             out.fired_at = inj.fired_at
             self.total_lines += inj.count
+            if inj.fired:
+                self.injected_any = True
             if inj.fired and out.exc is not None:
                 from .faults import settle
                 settle(out.exc)  # see there: finalisation of whatever the abort left suspended, inside the step
@@ -125,11 +129,13 @@ class Session:
         return out
 
     def log_event(self, op, out):
-        self.events.append(
-            (self.step_index, op["op"], out.exc_type if not out.ok else "ok", len(self.wl),
-             tuple(self.volumes_hex(i) for i in range(len(self.labs))),
-             tuple(len(lab.history) for lab in self.labs))
-        )
+        try:
+            vols = tuple(self.volumes_hex(i) for i in range(len(self.labs)))
+            hist = tuple(len(lab.history) for lab in self.labs)
+        except Exception as e:  # noqa - observing the system under test failed; what that means is for the caller
+            vols, hist = "unobservable", ()
+            self.unobservable = e
+        self.events.append((self.step_index, op["op"], out.exc_type if not out.ok else "ok", len(self.wl), vols, hist))
 
     # ---------------------------------------------------------------- observation (copies only)
     def records(self):
